@@ -401,14 +401,17 @@ Section MultiHost.
   Definition upd (st : mstate) (i : nat) (s : St) : mstate :=
     fun j => if Nat.eqb j i then s else st j.
 
+  (** One request on the whole server: route, then serve on that host's component. *)
+  Definition rstep (st : mstate) (r : Req) : mstate * Rep :=
+    match route r with
+    | None => (st, refuse)
+    | Some i => let (s', rep) := serve i (st i) r in (upd st i s', rep)
+    end.
+
   (** One event on the whole server; the reply of an administrative event is [None]. *)
   Definition mstep (st : mstate) (e : event) : mstate * option Rep :=
     match e with
-    | ERequest r =>
-        match route r with
-        | None => (st, Some refuse)
-        | Some i => let (s', rep) := serve i (st i) r in (upd st i s', Some rep)
-        end
+    | ERequest r => let (st', rep) := rstep st r in (st', Some rep)
     | EAdmin a => (fun j => if targets a j then admin a (st j) else st j, None)
     end.
 
@@ -452,6 +455,32 @@ Section MultiHost.
 End MultiHost.
 Arguments ERequest {Req Adm} r.
 Arguments EAdmin {Req Adm} a.
+Arguments upd {St} st i s j /.
+
+(** [handle_connection]'s loop body as a step of the multi-host server: the host is chosen by
+    [choose_host] on the collection, the request is served by that host's component.  A
+    request is (SNI of the connection, Host header values, everything else). *)
+Section Server.
+  Variables (St P Rep : Type).
+  Variable serve : nat -> St -> P -> St * Rep.
+  Variable refuse : Rep.
+  Definition srequest := (option bytes * list bytes * P)%type.
+  Definition server_step (v : version) (c : collection) (st : nat -> St) (r : srequest)
+    : outcome ((nat -> St) * Rep) :=
+    let '(sni, hh, p) := r in
+    match choose_host v c sni hh with
+    | Ok Refuse409 => Ok (st, refuse)
+    | Ok (ServeWith h) =>
+        let (s', rep) := serve (hid h) (st (hid h)) p in
+        Ok (upd st (hid h) s', rep)
+    | Err e => Err e
+    | Panic => Panic
+    end.
+  (** The routing function the specification assigns to a configuration. *)
+  Definition spec_route (ops : list op) (r : srequest) : option nat :=
+    let '(sni, hh, _) := r in reference_general ops sni (hd_error hh).
+  Definition spec_serve (i : nat) (s : St) (r : srequest) : St * Rep := serve i s (snd r).
+End Server.
 
 (** ---- a concrete instance for the correspondence over loopback connections -------------
     Every host has a handler for the paths starting with [/h] that answers its own marker
@@ -465,14 +494,29 @@ Fixpoint cache_get (p : bytes) (l : list (bytes * N)) : option N :=
   | (k, v) :: r => if beq k p then Some v else cache_get p r
   end.
 (** reply: (host id, invocation number that produced the body) *)
+(** [ServerCachePreference::Full]: the query is discarded in the cache key. *)
+Fixpoint path_only (p : bytes) : bytes :=
+  match p with
+  | [] => []
+  | c :: r => if N.eqb c 63 then [] else c :: path_only r
+  end.
 Definition marker_serve (i : nat) (s : hstate) (path : bytes) : hstate * (nat * N) :=
   if negb (starts_with [47; 104] path) then (s, (i, 0))      (* not "/h...": a file of host [i] *)
   else
-  match cache_get path (hs_cache s) with
+  let key := path_only path in
+  match cache_get key (hs_cache s) with
   | Some n => (s, (i, n))
   | None =>
       let n := hs_count s + 1 in
-      ({| hs_cache := (path, n) :: hs_cache s; hs_count := n |}, (i, n))
+      ({| hs_cache := (key, n) :: hs_cache s; hs_count := n |}, (i, n))
+  end.
+
+(** [parse::headers] builds the header map with [HeaderMap::insert]: of several Host
+    header lines on the wire the last one is kept. *)
+Definition wire_hosts (hh : list bytes) : list bytes :=
+  match rev hh with
+  | [] => []
+  | h :: _ => [h]
   end.
 
 (** One HTTP/1.1 request on a plain-TCP connection ([sni = None]): what the client sees.
@@ -488,14 +532,14 @@ Definition conn_request (v : version) (c : collection) (st : nat -> hstate) (hos
   match host_headers, c_default c with
   | [], None => Ok (st, WClosed)
   | _, _ =>
-      match choose_host v c None host_headers with
+      match choose_host v c None (wire_hosts host_headers) with
       | Panic => Panic
       | Err e => Err e
       | Ok Refuse409 => Ok (st, W409)
       | Ok (ServeWith h) =>
           let i := hid h in
           let (s', rep) := marker_serve i (st i) path in
-          Ok (fun j => if Nat.eqb j i then s' else st j, W200 (fst rep) (snd rep))
+          Ok (upd st i s', W200 (fst rep) (snd rep))
       end
   end.
 
@@ -509,6 +553,20 @@ Fixpoint conn_history (v : version) (c : collection) (st : nat -> hstate) (reqs 
       | Err e => Err e :: conn_history v c st rest
       | Panic => Panic :: conn_history v c st rest
       end
+  end.
+
+(** The specification of such a history: the multi-host server above with the reference
+    resolver as routing function and the marker handlers as per-host [serve]. *)
+Definition conn_serve (i : nat) (s : hstate) (r : list bytes * bytes) : hstate * wire_reply :=
+  let (s', rep) := marker_serve i s (snd r) in (s', W200 (fst rep) (snd rep)).
+Definition conn_route (ops : list op) (r : list bytes * bytes) : option nat :=
+  reference_general ops None (hd_error (wire_hosts (fst r))).
+Fixpoint conn_spec (ops : list op) (st : nat -> hstate) (reqs : list (list bytes * bytes)) : list wire_reply :=
+  match reqs with
+  | [] => []
+  | r :: rest =>
+      let (st', rep) := rstep hstate (list bytes * bytes) wire_reply conn_serve (conn_route ops) W409 st r in
+      rep :: conn_spec ops st' rest
   end.
 
 (** ==============================================================================
@@ -644,8 +702,22 @@ Definition run_conn (x : xval) : xval :=
   | _ => bad_input
   end.
 
+Definition run_conn_spec (x : xval) : xval :=
+  match x with
+  | XL [ops; reqs] =>
+      match d_ops ops, d_list d_req reqs with
+      | Some ops, Some reqs =>
+          if at_most_one_default ops
+          then XL [XN 0; XL (map (fun w => x_wire (Ok w)) (conn_spec ops (fun _ => hstate0) reqs))]
+          else XL [XN 2]
+      | _, _ => bad_input
+      end
+  | _ => bad_input
+  end.
+
 Definition hosts_table : list (bytes * (xval -> xval)) :=
   [ (B "hosts.lookup", run_lookup);
     (B "hosts.lookup_v0", run_lookup_v0);
     (B "hosts.spec", run_lookup_spec);
-    (B "hosts.conn", run_conn) ].
+    (B "hosts.conn", run_conn);
+    (B "hosts.conn_spec", run_conn_spec) ].
